@@ -28,6 +28,8 @@ type upload struct {
 	gaveUp              bool  // stream answered / reset before the body was out
 	violated            bool
 	sentBeforeViolation int
+	cancelAt            int  // the client gives the request up (RST_STREAM) once this many body bytes are out; -1 never
+	cancelled           bool
 }
 
 func (e *h2eng) streamOver(id uint32) bool {
@@ -67,8 +69,39 @@ func runInflow(s *simrt.Sim) {
 	nstreams := tp.Range(1, 3, "n_streams")
 	e.holdAll = violate
 	var ups []*upload
+	base := uint32(1)
+	if violate && tp.Chance(1, 2, "late_data_prologue") {
+		// DATA that reaches the server after it has closed the stream (the handler answered
+		// without reading): the frame is dropped, but it is charged to the connection window
+		// and given back like any other, so the windows the client computes stay exact
+		base = 3
+		lp := &hplan{ID: 1, Path: "/u1", Method: "POST", Status: 200, Read: 1, Writes: []hwrite{{N: 3}}}
+		e.handlers[1] = lp
+		e.byPath[lp.Path] = lp
+		if err := e.openStream(1, reqFields("POST", lp.Path, xhpack.HeaderField{Name: "content-type", Value: "application/x-verif"}), false); err == nil {
+			simrt.WaitUntil(func() bool { return e.streamOver(1) })
+			simrt.Sleep(20 * time.Millisecond)
+			if !e.readerDone && e.goAway() == nil {
+				late := int64(8 + tp.Draw(2000, "late_data_len"))
+				e.wmu.Lock()
+				e.srvConnWin -= late
+				e.writeDataLocked(1, patterned(0, int(late), 1), 0, false)
+				e.wmu.Unlock()
+				s.Fault("data_on_closed_stream")
+				deadline := s.Now() + 2*time.Second
+				for e.srvConnWin < connInit && !e.readerDone && s.Now() < deadline {
+					simrt.Sleep(10 * time.Millisecond)
+				}
+				if e.srvConnWin < connInit && !e.readerDone && e.goAway() == nil {
+					s.FailK("C33.replenish", "dropped-data-not-given-back", "%d bytes of DATA on a stream the server had closed were not given back to the connection window within 2 s: it stands at %d of %d", late, e.srvConnWin, connInit)
+					return
+				}
+				s.Probe("h2_late_data_before_violation")
+			}
+		}
+	}
 	for i := 0; i < nstreams; i++ {
-		id := uint32(1 + 2*i)
+		id := base + uint32(2*i)
 		p := &hplan{ID: id, Path: fmt.Sprintf("/u%d", id), Method: "POST", Status: 200}
 		size := []int{0, 10, 900, 30000, 70000, 200000}[tp.Draw(6, "body.class")]
 		if size > 0 {
@@ -111,7 +144,11 @@ func runInflow(s *simrt.Sim) {
 		}
 		e.handlers[id] = p
 		e.byPath[p.Path] = p
-		ups = append(ups, &upload{p: p})
+		u := &upload{p: p, cancelAt: -1}
+		if faults && !violate && size > 0 && tp.Chance(1, 4, "up.cancel") {
+			u.cancelAt = tp.Draw(size, "up.cancel_at")
+		}
+		ups = append(ups, u)
 	}
 	total := 0
 	for _, u := range ups {
@@ -145,7 +182,7 @@ func runInflow(s *simrt.Sim) {
 	for s.Now()-lastAt < 20*time.Second {
 		all := true
 		for _, u := range ups {
-			if !e.streamOver(u.p.ID) {
+			if !u.cancelled && !e.streamOver(u.p.ID) {
 				all = false
 			}
 		}
@@ -213,6 +250,10 @@ func runInflow(s *simrt.Sim) {
 		if !bytes.HasPrefix(p.ReqBody, p.GotBody) {
 			s.FailK("C33.body", "handler-body-altered", "stream %d: handler read %d bytes that are not a prefix of the %d sent (first difference at %d)", p.ID, len(p.GotBody), u.sent, firstDiff(p.GotBody, p.ReqBody))
 			return
+		}
+		if u.cancelled {
+			s.Probe("h2_upload_cancelled_by_client")
+			continue
 		}
 		if p.Read == 0 {
 			if !u.done || len(p.GotBody) != len(p.ReqBody) {
@@ -312,6 +353,13 @@ func (e *h2eng) upload(u *upload, violator bool, violKind int) {
 		e.violationImpossible = true
 	}
 	for u.sent < len(p.ReqBody) {
+		if u.cancelAt >= 0 && u.sent >= u.cancelAt {
+			// the client loses interest in the middle of its upload
+			e.s.Fault("client_rst_mid_upload")
+			u.cancelled = true
+			e.resetStream(id)
+			return
+		}
 		chunk := []int{16384, 16384, 1000, 100, 1}[tp.Draw(5, "up.chunk")]
 		if chunk == 1 && len(p.ReqBody) > 2000 {
 			chunk = 50 // byte-sized frames only for small bodies
@@ -328,6 +376,15 @@ func (e *h2eng) upload(u *upload, violator bool, violKind int) {
 		}
 		if chunk > 0 && pad > 0 && tp.Chance(1, 4, "up.pad_only_frame") {
 			chunk = 0 // a frame of padding only: costs window, carries nothing
+		}
+		// a frame larger than the stream window can ever be would wait for ever
+		if w := int(e.srvInitWin); chunk+pad > w {
+			if pad >= w {
+				pad = 0
+			}
+			if chunk+pad > w {
+				chunk = w - pad
+			}
 		}
 		need := int64(chunk + pad)
 		ok := func() bool { return e.srvStreamWin[id] >= need && e.srvConnWin >= need }
